@@ -17,6 +17,8 @@ with C.Lock():
     print("\n".join(msgs4))
     ok5, msgs5 = k3check.regen_sync()
     print("\n".join(msgs5))
+    ok6, msgs6 = C.regen_limits()
+    print("\n".join(msgs6))
     ok2, out, errors, dt = C.lake_build(["Cuckoo", "cuckoo-driver"])
     print("lake build: %s in %.0fs" % ("ok" if ok2 else "FAILED", dt))
     if not ok2:
